@@ -204,6 +204,37 @@ def run(ctx):
                 ctx.check(bool(r), "R03.3", f, "required-raise-condition",
                           "the 'missing value' error can be raised although %s" % _explain(cm), (f, None),
                           why_ok="raised only under %s" % logic.show(goal))
+        # --- R03.3 (liveness): a path that leaves check() without writing the value state is only there for a given option
+        # or for one without a default - path-sensitively, over the acyclic paths of check()
+        wr = {id(x[2]) for x in env_applies} | {id(x[2]) for x in default_assigns}
+        npaths = 0
+        hasdef = HAS_DEFAULT.get(k)
+        for rb in (f.exit,):
+            try:
+                paths = cfg.acyclic_paths(f, f.entry, rb)
+            except RuntimeError:
+                ctx.broken("R03.3", f, "default-whenever-no-other-source", "too many paths through check()", f)
+                continue
+            for path in paths:
+                if any(id(e) in wr for (b, _) in path for e in f.elems(b)):
+                    continue
+                npaths += 1
+                conds = [ng] + ([hasdef] if hasdef is not None else [])
+                for (b, lab) in path:
+                    c = f.term(b).get("cond")
+                    if c is None or lab not in ("true", "false"):
+                        continue
+                    t = lg.truthy(c, {}, 0)
+                    conds.append(t if lab == "true" else Not(t))
+                sat = logic.satisfiable(conds, lg.axioms)
+                if sat and logic.entails(conds, nonempty, lg.axioms)[0] is True:
+                    continue  # the environment is the source on this path (what it stores is R03.5's obligation)
+                ctx.check(not sat, "R03.3", f, "default-whenever-no-other-source:B%s" % "-".join(str(b) for b, _ in path),
+                          "%s::check() can return along blocks %s with the value state untouched although nothing was given on the command line%s: "
+                          "the declared default is skipped on that path (condition: %s)"
+                          % (k, "->".join("B%s" % b for b, _ in path), " and a default is declared" if hasdef is not None else " (a toggle always has a default)",
+                             " && ".join(logic.show(c) for c in conds[1:])[:300]), f, why_ok="infeasible when not given")
+        ctx.need("R03.3", "write-free paths through %s::check" % k, npaths, 1)
         # --- R03.4b: env path sets dirty_
         for (b3, i3, e3, wn, rhs) in env_applies:
             # from the start of the function along any path through e3 to the exit a dirty_=true write must occur:
